@@ -549,28 +549,17 @@ assign_int_float(To& to, const From from, Rounding_Dir dir) {
   else if (is_pinf<From_Policy>(from)) {
     return assign_special<To_Policy>(to, VC_PLUS_INFINITY, dir);
   }
-#if 0
-  // FIXME: this is correct but it is inefficient and breaks the build
-  // for the missing definition of static const members (a problem present
-  // also in other areas of the PPL).
-  if (CHECK_P(To_Policy::check_overflow,
-              lt(from, Extended_Int<To_Policy, To>::min))) {
+  // Note: the type bounds cannot be compared with the source after a plain
+  // conversion to its type, because such a conversion may round them
+  // (e.g., INT_MAX becomes 2^31 as a float).
+  const To to_min = Extended_Int<To_Policy, To>::min;
+  const To to_max = Extended_Int<To_Policy, To>::max;
+  if (CHECK_P(To_Policy::check_overflow, lt(from, to_min))) {
     return set_neg_overflow_int<To_Policy>(to, dir);
   }
-  if (CHECK_P(To_Policy::check_overflow,
-              !le(from, Extended_Int<To_Policy, To>::max))) {
+  if (CHECK_P(To_Policy::check_overflow, !le(from, to_max))) {
     return set_pos_overflow_int<To_Policy>(to, dir);
   }
-#else
-  if (CHECK_P(To_Policy::check_overflow,
-             (from < Extended_Int<To_Policy, To>::min))) {
-    return set_neg_overflow_int<To_Policy>(to, dir);
-  }
-  if (CHECK_P(To_Policy::check_overflow,
-             (from > Extended_Int<To_Policy, To>::max))) {
-    return set_pos_overflow_int<To_Policy>(to, dir);
-  }
-#endif
   if (round_not_requested(dir)) {
     to = from;
     return V_LGE;
